@@ -4,7 +4,7 @@ CONSTANTS
   MaxStmts = 1
   MaxDepth = 1
   UseY = TRUE
-  Cats = {"assign-v", "unpack", "aug", "expr", "assert", "mut"}
+  Cats = {"assign-v", "unpack", "aug", "expr", "assert", "mut", "return", "save"}
 INVARIANT Inhabited
 INVARIANT EmitDone
 CHECK_DEADLOCK FALSE
